@@ -177,7 +177,9 @@ func run(p *analysis.Pass) ([]annotation.FullTrigger, error) {
 			case *ast.FuncLit:
 				info, ok := funcLitMap[f]
 				if !ok {
-					panic(fmt.Sprintf("no func lit info found for anonymous function %v", pass.Fset.Position(f.Pos())))
+					// The anonymous function analyzer does not support this function literal (a variadic
+					// one that captures variables): it stays unanalyzed.
+					continue
 				}
 
 				funcDecl, funcLit, graph = info.FakeFuncDecl, f, ctrlflowResult.FuncLit(f)
